@@ -87,6 +87,7 @@ type Spec struct {
 	InboxSize     int
 	NMiddleware   int
 	MWSplit       int // >0: the chain is given as two WithMiddleware options, split at this index
+	MWBase        int // >0: the first MWBase middlewares are passed as a slice shared with other actors (spare capacity)
 	PanicInit     map[int]bool // incarnation index -> panic while handling Initialized
 	PanicStarted  map[int]bool
 	PanicStopped  map[int]bool
@@ -194,6 +195,38 @@ type Env struct {
 	Watches  []*Watch
 	overlaps int
 	relayN   map[string]int
+	// middleware slices handed to WithMiddleware for several actors (same
+	// backing array, spare capacity), by length
+	mwBases map[int][]actor.MiddlewareFunc
+}
+
+// sharedBase returns the slice every spec with MWBase == n passes to
+// WithMiddleware: a caller that keeps one "base chain" around and configures
+// several actors from it.
+func (env *Env) sharedBase(n int) []actor.MiddlewareFunc {
+	if b, ok := env.mwBases[n]; ok {
+		return b
+	}
+	b := make([]actor.MiddlewareFunc, n, n+8)
+	for i := range b {
+		b[i] = env.middleware("", i)
+	}
+	if env.mwBases == nil {
+		env.mwBases = map[int][]actor.MiddlewareFunc{}
+	}
+	env.mwBases[n] = b
+	return b
+}
+
+// scrambleBases is the caller re-using its slices after the spawns: the
+// entries are overwritten with middlewares that belong to nobody.
+func (env *Env) scrambleBases() {
+	for n, b := range env.mwBases {
+		for i := range b {
+			b[i] = env.middleware("\x00caller's slice after spawn", i)
+		}
+		delete(env.mwBases, n)
+	}
 }
 
 func NewEnv(rc *core.RunCtx) *Env {
@@ -285,7 +318,14 @@ func (env *Env) opts(spec *Spec) []actor.OptFunc {
 	if spec.InboxSize > 0 {
 		o = append(o, actor.WithInboxSize(spec.InboxSize))
 	}
-	if spec.NMiddleware > 0 {
+	if n := spec.MWBase; n > 0 && n < spec.NMiddleware {
+		// the first n come from a slice shared with other actors, the rest are this actor's own
+		var rest []actor.MiddlewareFunc
+		for i := n; i < spec.NMiddleware; i++ {
+			rest = append(rest, env.middleware(spec.FullID(), i))
+		}
+		o = append(o, actor.WithMiddleware(env.sharedBase(n)...), actor.WithMiddleware(rest...))
+	} else if spec.NMiddleware > 0 {
 		var mws []actor.MiddlewareFunc
 		for i := 0; i < spec.NMiddleware; i++ {
 			mws = append(mws, env.middleware(spec.FullID(), i))
@@ -318,9 +358,23 @@ func (env *Env) middleware(id string, i int) actor.MiddlewareFunc {
 	return func(next actor.ReceiveFunc) actor.ReceiveFunc {
 		return func(c *actor.Context) {
 			// the process instance is the one whose receiver is current
-			in := env.info(id)
-			if sr, ok := c.Receiver().(*scripted); ok {
+			sr, ok := c.Receiver().(*scripted)
+			if !ok && id == "" {
+				next(c)
+				return
+			}
+			var in *Info
+			if ok {
 				in = sr.in
+			} else {
+				in = env.info(id)
+			}
+			if id != "" && in.ID != id {
+				// a middleware configured for another actor (or none) runs in this actor's chain
+				st := in.mwOf()
+				st.cur = append(st.cur, fmt.Sprintf("FOREIGN(%s)%d", strings.TrimPrefix(id, "\x00"), i))
+				next(c)
+				return
 			}
 			k, um, other := msgKind(c.Message())
 			tag := dNames[k]
@@ -380,6 +434,9 @@ func (s *scripted) Receive(c *actor.Context) {
 		}
 	}()
 	simrt.Yield(simrt.OpUser)
+	if k == dUser && len(env.mwBases) > 0 {
+		env.scrambleBases()
+	}
 	spec := in.Spec
 	switch k {
 	case dInit:
